@@ -139,7 +139,8 @@ def recStr (buf : List UInt8) (bp : BufPos) : Option String := do
   let raw ← seqRaw buf bp
   let u ← writeUnchanged buf bp
   let n := numSeqLines bp
-  some (s!"h={hexOf h}:l={linesStr ls}:r={hexOf raw}:n={n}:b={if n = 1 then 1 else 0}:u={hexOf u}:" ++ idDescStr h)
+  let o ← ownedSeq buf bp
+  some (s!"h={hexOf h}:l={linesStr ls}:r={hexOf raw}:n={n}:b={if n = 1 then 1 else 0}:o={hexOf o}:u={hexOf u}:" ++ idDescStr h)
 
 def ownedStr (buf : List UInt8) (bp : BufPos) : Option String := do
   let h ← head buf bp
@@ -717,6 +718,11 @@ def handleIter (toks : List String) : String :=
 
 def handle (line : String) : List String :=
   match line.trimAscii.toString.splitOn " " with
+  | "F" :: fmt :: _cap :: _pol :: _chunk :: _script :: _sf :: inp :: _ =>
+    -- sources outside the model's contract (premature Ok(0)): only S is computed
+    match unhex inp with
+    | some b => ["M skip", "S " ++ (if fmt = "fa" then Fa.specStr b else Fq.specStr b)]
+    | none => ["M bad-case"]
   | "A" :: toks =>
     match runReaderCase toks with
     | some (m, s) => ["M " ++ m, "S " ++ s]
@@ -738,7 +744,7 @@ def handle (line : String) : List String :=
 partial def loop (h : IO.FS.Stream) (out : IO.FS.Stream) : IO Unit := do
   let line ← h.getLine
   if line.isEmpty then return ()
-  if line.startsWith "R " || line.startsWith "A " || line.startsWith "I " || line.startsWith "W " || line.startsWith "X " || line.startsWith "Y " || line.startsWith "Z " then
+  if line.startsWith "R " || line.startsWith "A " || line.startsWith "F " || line.startsWith "I " || line.startsWith "W " || line.startsWith "X " || line.startsWith "Y " || line.startsWith "Z " then
     for l in handle line do
       out.putStrLn l
   loop h out
